@@ -219,10 +219,19 @@ def replay(col, item):
                     return
                 fs = None
                 FM.atexit = NoAtexit()
+            elif a == "reset":
+                if seq % 2:
+                    fs.reset_cache()
+                else:
+                    fs.time_coverage = fs.time_coverage
             elif a == "crash":
                 fs = None
                 FM.atexit = NoAtexit()
             elif a == "corrupt":
+                if not os.path.exists(cache):
+                    # the adversary damages a complete document (model: main.k = "doc"); here no file was written at all
+                    col.violation("completed-save-left-no-cache-file", dict(rep, at_step=i))
+                    return
                 corrupt(cache, variant, seq)
                 corrupted = True
                 rep["concrete"]["corruption_variant"] = variant
@@ -324,7 +333,7 @@ def truncation_sweep(col, kind):
 
 def run(ctx):
     quick = ctx.tier == "quick"
-    ctx.rule = ("TLC explores CacheDesign (touch, the four steps of save_cache, crash between any two steps, corruption "
+    ctx.rule = ("TLC explores CacheDesign (touch, reset_cache / time_coverage assignment, the four steps of save_cache, crash between any two steps, corruption "
                 "by an adversary, restart) and prints every history that ends in a restart with the state the model "
                 "prescribes (cache file class, entries restored, warning); each is replayed on real FileSet objects with "
                 "the crash raised at that step (BaseException from the backup's k-th write / before the rename), for a "
@@ -334,10 +343,10 @@ def run(ctx):
     d = ctx.tlc_dir("fileset")
     with open(os.path.join(d, "MCCache.cfg"), "w") as f:
         f.write("CONSTANTS Entries = %s MaxSaves = 2 MaxLen = %d\nSPECIFICATION Spec\nINVARIANT MainComplete\n"
-                "INVARIANT LoadOK\nINVARIANT RoundTrip\nINVARIANT Emit\n" % (("{1,2}", 10) if quick else ("{1,2,3}", 12)))
+                "INVARIANT LoadOK\nINVARIANT RoundTrip\nINVARIANT ResetIsSaved\nINVARIANT Emit\n" % (("{1,2}", 10) if quick else ("{1,2,3}", 12)))
     res = ctx.tlc(d, "CacheDesign", "MCCache.cfg", workers=1, coverage=True, timeout=1500)
     cov = res.coverage()
-    never = [a for a in ("SaveOpen", "SaveWrite", "SaveClose", "SaveRename", "Crash", "ExitSave", "Restart", "Corrupt") if cov.get(a, (0, 0))[1] == 0]
+    never = [a for a in ("Reset", "SaveOpen", "SaveWrite", "SaveClose", "SaveRename", "Crash", "ExitSave", "Restart", "Corrupt") if cov.get(a, (0, 0))[1] == 0]
     if never:
         raise MachineryError("CacheDesign actions never taken: %s" % never)
     cases = list(res.tagged("CASE"))
